@@ -198,6 +198,32 @@ def run(ctx):
                         f[1] = str(rng.choice([3, 7, 15]))
                         p["local"] = ":".join(f)
                 ps.append(p)
+        # non-finite objective values INSIDE the budget, for every algorithm: one, and a short burst of consecutive ones (NaN, +Inf, -Inf)
+        # early in the run; the evaluation counter and the limit test must not depend on the value the objective returned
+        for nm in problems.ALL:
+            for rep in range(6 if ctx.thorough else 3):
+                N = rng.choice([6, 12, 30])
+                p = problems.gen_problem(rng, A, alg_name=nm, maxeval=N, box="finite")
+                for k in ("maxtime", "clockq", "clock0", "stopval", "inj"):
+                    p.pop(k, None)
+                k0 = rng.randrange(1, min(N, 6) + 1)
+                burst = 1 if rep == 0 else rng.choice([1, 2, 3])
+                v = rng.choice(["7ff8000000000000", "7ff0000000000000", "fff0000000000000"]) if rep else "7ff8000000000000"
+                p["inj"] = ",".join("%d:%s" % (k0 + j, v) for j in range(burst))
+                ps.append(p)
+        # converged runs (no small budget): paths that only exist near convergence — PRAXIS's random step out of a stalled iteration,
+        # final extra steps, restarts — have their own evaluation sites, each of which must count and test the limits
+        for nm in problems.ALL:
+            if nm in problems.GLOBAL:
+                continue
+            for rep in range(6 if ctx.thorough else 2):
+                p = problems.gen_problem(rng, A, alg_name=nm, with_constraints=False, box="finite", maxeval=(rng.choice([1500, 3000]) if ctx.thorough else 800), n=rng.choice([2, 3]))
+                for k in ("maxtime", "clockq", "clock0", "stopval", "inj", "xtol_abs", "xw"):
+                    p.pop(k, None)
+                p["obj"] = [0, 1, 3][rep % 3]
+                p["xtol_rel"] = 1e-6
+                p["ftol_rel"] = 0.0
+                ps.append(p)
         import os
         env = dict(os.environ)
         env["HRUN_TIMEOUT"] = "10"
